@@ -31,6 +31,8 @@ def _work(c):
     out = []
     for b in implrun.BACKENDS:
         recs, r = capture_call(c, b)
+        if r[0] == "exc" and ("failed to compile" in r[3] or r[1] == "INTERNAL:Exception"):
+            out.append({"backend": b, "text": "", "compile_error": r[1] + ": " + r[3], "n_records": 0})
         for rec in recs:
             item = {"backend": b, "text": rec["text"], "n_records": len(recs)}
             g = rec["graph"]
@@ -82,12 +84,145 @@ def _same(a, b):
     return a.shape == b.shape and (np.array_equal(a, b) or (a.dtype.kind == "f" and np.allclose(a, b, equal_nan=True)))
 
 
+class Syn:
+    """stand-in for a generated call in reports about synthetic graphs"""
+
+    def __init__(self, desc):
+        self.family, self.op, self.desc = "synthetic", "graph", desc
+        self.arrays = []
+
+    def record(self):
+        return {"family": "synthetic", "op": "graph", "desc": self.desc}
+
+
+def synthetic_graph(rng):
+    """random well-formed graph over the IR node types: calls, operators (nested), getattr, getitem, tuple/list/dict arguments,
+    builtins, casts, asserts, in-place calls on private copies, values used 0/1/many times, up to ~70 temporaries"""
+    import einx._src.tracer as tracer
+    py = tracer.signature.python
+    np_ = py.import_("numpy", as_="np")
+    nin = rng.randint(1, 3)
+    inputs = [py.Value(None) for _ in range(nin)]
+    pool = list(inputs)            # array-valued tracers, all of shape (4,)
+    desc = []
+    nsteps = rng.choice([3, 6, 10, 20, 35, 50, 70])
+    for _ in range(nsteps):
+        r = rng.random()
+        a, b = rng.choice(pool), rng.choice(pool)
+        if r < 0.22:
+            v = py.call(py.getattr(np_, rng.choice(["add", "multiply", "subtract", "maximum"])), [a, b])
+            desc.append("call")
+        elif r < 0.42:
+            c = rng.choice(pool)
+            inner = py.operator(rng.choice(["+", "*", "-"]), a, b)                 # nested operators: (a op b) op c
+            v = py.operator(rng.choice(["+", "*", "-"]), inner, c) if rng.random() < 0.6 else py.operator(rng.choice(["+", "*"]), c, inner)
+            desc.append("nested_op")
+        elif r < 0.5:
+            v = py.call(py.getattr(np_, "stack"), [[a, b]], {"axis": 0})
+            v = py.getitem(v, rng.randint(0, 1))
+            desc.append("list_arg_getitem")
+        elif r < 0.57:
+            t = py.call(py.getattr(np_, "broadcast_arrays"), [a, b])
+            t = tracer.cast(t, lambda origin: [py.Value(origin), py.Value(origin)])   # tuple unpacking through a cast
+            v = py.operator("+", t[0], t[1])
+            desc.append("multi_output")
+        elif r < 0.63:
+            sh = py.getattr(py.operator("+", a, b), "shape")                          # attribute of an operator expression
+            v = py.call(py.getattr(np_, "reshape"), [a, py.builtins.tuple(sh)])
+            desc.append("getattr_of_op")
+        elif r < 0.7:
+            cond = py.equal(py.builtins.len(a), 4)
+            v = py.assert_(a, cond, "length check")
+            desc.append("assert")
+        elif r < 0.8:
+            cp = py.call(py.getattr(np_, "copy"), [a])
+            v = py.call_inplace(cp, py.getattr(np_, "put"), [cp, rng.randint(0, 3), rng.randint(1, 9)])
+            desc.append("inplace")
+        elif r < 0.87:
+            cp = py.call(py.getattr(np_, "copy"), [a])
+            v = py.additem(cp, rng.randint(0, 3), rng.randint(1, 9)) if rng.random() < 0.5 else py.setitem(cp, slice(0, 2), 7)
+            desc.append("updateitem")
+        elif r < 0.93:
+            v = py.call(py.getattr(np_, "where"), [py.operator("<", a, b), a, b])
+            desc.append("compare")
+        else:
+            v = py.call(py.getattr(np_, "clip"), [a], {"a_min": -2, "a_max": rng.randint(0, 3)})
+            desc.append("kwarg")
+        pool.append(v)
+    outs = rng.sample(pool[nin:], min(len(pool) - nin, rng.randint(1, 3)))
+    out = outs[0] if len(outs) == 1 else tuple(outs)
+    g = tracer.Graph(inputs=inputs, output=out, name="op")
+    args = [np.array([rng.randint(-5, 5) for _ in range(4)], dtype=np.int64) for _ in range(nin)]
+    return g, args, " ".join(desc)
+
+
+def _work_syn(item):
+    g, args, desc = item
+    import einx._src.tracer as tracer
+    out = {"backend": "synthetic", "n_records": 1}
+    try:
+        fn, text = tracer.compiler.python.compile(g, return_code=True)
+    except BaseException as e:  # noqa: BLE001
+        return [dict(out, text="", compile_error=type(e).__name__ + ": " + str(e)[:300])]
+    out["text"] = text
+    try:
+        out["graph_wire"] = irser.ser_graph(g)
+    except irser.Unsupported as e:
+        out["unsupported"] = str(e)
+    try:
+        out["code_wire"] = irser.ser_code(text)
+    except irser.NotStraightLine as e:
+        out["not_straight_line"] = str(e)
+    try:
+        ns = {}
+        exec(text, ns, ns)                                   # noqa: S102
+        a1 = [np.array(a) for a in args]
+        a2 = [np.array(a) for a in args]
+        r1 = ns["op"](*a1)
+        r2, _ = irser.direct_eval(g, a2)
+        same = _same(r1, r2) and all(np.array_equal(x, y) for x, y in zip(a1, a2)) and all(np.array_equal(x, y) for x, y in zip(a1, args))
+        out["exec"] = "ok" if same else "differs"
+        if not same:
+            out["exec_detail"] = {"text_result": _tolist(r1), "graph_result": _tolist(r2)}
+        out["same_code_object"] = code_fingerprint(ns["op"]) == code_fingerprint(fn)
+    except irser.Unsupported as e:
+        out["exec"] = "unsupported: " + str(e)
+    except BaseException as e:  # noqa: BLE001
+        out["exec"] = "raised " + type(e).__name__ + ": " + str(e)[:200]
+    return [out]
+
+
+def many_tensor_calls(rng, n):
+    """real calls that need many temporaries (several coordinate tensors / many inputs)"""
+    out = []
+    for j in range(n):
+        k = [6, 10, 14, 20, 30, 46, 60][j % 7]
+        if rng.random() < 0.5 and k <= 14:
+            sizes = [2] * k
+            desc = "[" + " ".join(f"x{i}" for i in range(k)) + "], " + ", ".join("p" for _ in range(k)) + " -> p"
+            arrays = [np.arange(2 ** k, dtype=np.int64).reshape(sizes)] + [np.array([rng.randint(0, 1) for _ in range(3)], dtype=np.int64) for _ in range(k)]
+            c = gencalls.Call("get_at", "get_at", [], [], arrays, desc=desc)
+        else:
+            desc = ", ".join(f"a{i}" for i in range(k)) + " -> " + ", ".join(f"1 a{i}" for i in range(k))
+            arrays = [np.arange(2, dtype=np.int64) + i for i in range(k)]
+            c = gencalls.Call("id", "id", [], [], arrays, desc=desc)
+        out.append(c)
+    return out
+
+
 def run(ctx):
     import einx  # noqa: F401
     n = 300 if ctx.tier == "quick" else 8000
-    cases = [gencalls.gen_call(ctx.rng) for _ in range(n)]
+    cases = [gencalls.gen_call(ctx.rng) for _ in range(n)] + many_tensor_calls(ctx.rng, 14 if ctx.tier == "quick" else 210)
     res = common.pmap(_work, cases)
-    items = [(c, it) for c, its in zip(cases, res) for it in its]
+    syn = [synthetic_graph(ctx.rng) for _ in range(250 if ctx.tier == "quick" else 6000)]
+    sres = common.pmap(_work_syn, syn)
+    items = [(c, it) for c, its in zip(cases, res) for it in its] + [(Syn(s[2]), it) for s, its in zip(syn, sres) for it in its]
+    for c, it in items:
+        if "compile_error" in it:
+            ctx.report({"kind": "compile_fails", "family": c.family, "error": it["compile_error"].split(":")[0]},
+                       {"call": c.record(), "detail": it["compile_error"]})
+    items = [(c, it) for c, it in items if "compile_error" not in it]
     lines, owners = [], []
     stats = {"pairs": 0, "validated": 0, "unsupported": 0, "executed": 0, "events": 0}
     for c, it in items:
